@@ -463,6 +463,7 @@ Proof.
   destruct r as [x|o|[| |v]]; cbn [exit_ok] in *; try contradiction; try exact Hok.
   - destruct Hok as (E' & stL' & -> & Hr & Hk). exists E', stL'. split; [reflexivity | apply Hback; assumption].
   - destruct Hok as (E' & stL' & -> & Hr & Hk). exists E', stL'. split; [reflexivity | apply Hback; assumption].
+  - destruct Hok as (E' & stL' & lv & -> & Hv & Hr & Hk). exists E', stL', lv. split; [reflexivity | split; [exact Hv | apply Hback; assumption]].
 Qed.
 
 Lemma exit_pre {A} ctx sc sc1 e e1 st st1 F F1 c c0 c1 E stL b1 E1 stL1 b2 (r : SyltSem.res A) st' :
@@ -496,6 +497,9 @@ Proof.
   - destruct Hok as (E' & stL' & -> & Hr & Hk). exists (ROk (E, SigGoto (fmt_label ctx)) stL'). split.
     + apply XS_stop; [eapply Exec_if; eassumption | intros []].
     + cbn [exit_ok]. exists E, stL'. split; [reflexivity | split; [exact Hr | eapply xkeep_cells_ext; eassumption]].
+  - destruct Hok as (E' & stL' & lv & -> & Hv & Hr & Hk). exists (ROk (E, SigReturn [lv]) stL'). split.
+    + apply XS_stop; [eapply Exec_if; eassumption | intros []].
+    + cbn [exit_ok]. exists E, stL', lv. split; [reflexivity | split; [exact Hv | split; [exact Hr | eapply xkeep_cells_ext; eassumption]]].
 Qed.
 
 End Sim.
